@@ -7,7 +7,7 @@
    addition pinned by hand (tag_char, name_doc, jd_doc, boot_doc_limit). *)
 From Coq Require Import List ZArith NArith Bool String.
 From FIM Require Import Base.Str Base.Regex Base.RegexSound Model.Labels16Types Gen.UnicodeClasses Gen.LabelValidators
-  Model.Labels16 Model.Labels16Spec Proofs.Validate16 Proofs.Validate16Misc Proofs.Validate16Int.
+  Model.Labels16 Model.Labels16Spec Proofs.Validate16 Proofs.Validate16Misc Proofs.Validate16Int Proofs.Validate16Entry.
 Import ListNotations.
 
 (* ---- the tie's static part: the translator recognised every construct; every call site matches the whole string ---- *)
@@ -136,6 +136,69 @@ Theorem C16_documented_boundaries :
                     Bool.eqb (list_accepted (fst (fst x)) (snd (fst x))) (snd x)) boundary_table = true.
 Proof. exact boundaries_hold. Qed.
 Print Assumptions C16_documented_boundaries.
+
+(* ---- entry-point independence, as ONE statement over the type of entry-point semantics (Model/Labels16Types.v ep_sem;
+   the table label_entry_points is regenerated: constructor, update, from_json, element.update_labels with/without
+   labels, direct attribute assignment, attaching an object to an element) ---- *)
+Theorem C16_entry_point_independence : forall sem, ep_checked sem = true ->
+  forall cur k v, labels_inv cur -> labels_wf cur -> mem_str k label_fields = true -> is_strs v = true ->
+    (snd (ep_apply sem cur (k, v)) = None <-> Forall (in_domain k) (elems v)) /\
+    labels_inv (fst (ep_apply sem cur (k, v))) /\ labels_wf (fst (ep_apply sem cur (k, v))).
+Proof. exact entry_point_independence. Qed.
+Print Assumptions C16_entry_point_independence.
+
+(* every semantics that does not validate is refuted (an undocumented value gets into an object) *)
+Theorem C16_unchecked_entry_point_refuted : forall sem, ep_checked sem = false ->
+  exists cur k v, labels_inv cur /\ labels_wf cur /\ mem_str k label_fields = true /\ is_strs v = true /\
+    snd (ep_apply sem cur (k, v)) = None /\ ~ labels_inv (fst (ep_apply sem cur (k, v))).
+Proof. exact unchecked_entry_point_refuted. Qed.
+Print Assumptions C16_unchecked_entry_point_refuted.
+
+(* over the REGENERATED table: the full statement for every listed entry point, or (the code as it is: plain
+   attribute assignment on a Labels object is unchecked, and set_labels does not re-validate the object it attaches)
+   a listed entry point that is refuted.  Known finding + proposed_fixes/C16-4.patch. *)
+Theorem C16_entry_point_table_full_or_refuted :
+  if forallb (fun e => ep_checked (snd e)) label_entry_points
+  then forall name sem, In (name, sem) label_entry_points ->
+         forall cur k v, labels_inv cur -> labels_wf cur -> mem_str k label_fields = true -> is_strs v = true ->
+           (snd (ep_apply sem cur (k, v)) = None <-> Forall (in_domain k) (elems v)) /\
+           labels_inv (fst (ep_apply sem cur (k, v))) /\ labels_wf (fst (ep_apply sem cur (k, v)))
+  else exists name sem, In (name, sem) label_entry_points /\ ep_checked sem = false /\
+         exists cur k v, labels_inv cur /\ labels_wf cur /\ mem_str k label_fields = true /\ is_strs v = true /\
+           snd (ep_apply sem cur (k, v)) = None /\ ~ labels_inv (fst (ep_apply sem cur (k, v))).
+Proof. exact entry_point_table_full_or_refuted. Qed.
+Print Assumptions C16_entry_point_table_full_or_refuted.
+
+(* re-validation (what set_labels does once proposed_fixes/C16-4 is in) accepts exactly the documented objects *)
+Theorem C16_revalidation_sound : forall st, labels_wf st -> revalidate st = None -> labels_inv st.
+Proof. exact revalidate_sound. Qed.
+Print Assumptions C16_revalidation_sound.
+
+Theorem C16_revalidation_complete : forall st, labels_wf st -> labels_inv st -> revalidate st = None.
+Proof. exact revalidate_complete. Qed.
+Print Assumptions C16_revalidation_complete.
+
+(* list values with an element that is not a string: FULL = never stored; for the code as it is (elements are not
+   type-checked) REFUTED: Labels(numa=[5]) is stored.  Known finding + proposed_fixes/C16-2.patch. *)
+Theorem C16_nonstring_elements_full_or_refuted : if label_list_elements_typechecked then mixed_full else mixed_refuted.
+Proof. exact mixed_full_or_refuted. Qed.
+Print Assumptions C16_nonstring_elements_full_or_refuted.
+
+(* a keyword naming an attribute that is not a field (method, class table): FULL = never stored; for the code as it
+   is (field test by __getattribute__) REFUTED: Labels(to_json='x') is stored.  proposed_fixes/C16-3.patch. *)
+Theorem C16_nonfield_keyword_full_or_refuted :
+  if label_field_test_is_dict then (forall fg, nonfield_attr_outcome fg <> KW_stored) else nonfield_attr_outcome false = KW_stored.
+Proof. exact nonfield_attr_full_or_refuted. Qed.
+Print Assumptions C16_nonfield_keyword_full_or_refuted.
+
+Theorem C16_capacity_nonfield_keyword_full_or_refuted :
+  if caps_field_test_is_dict then (forall fg, caps_nonfield_attr_outcome fg <> KW_stored) else caps_nonfield_attr_outcome false = KW_stored.
+Proof. exact caps_nonfield_attr_full_or_refuted. Qed.
+Print Assumptions C16_capacity_nonfield_keyword_full_or_refuted.
+
+Theorem C16_nonfield_keyword_from_json : from_json_prefilters = true -> nonfield_attr_outcome_from_json = KW_skipped.
+Proof. exact nonfield_attr_from_json. Qed.
+Print Assumptions C16_nonfield_keyword_from_json.
 
 (* ---- Tags ---- *)
 Theorem C16_tags_accept_iff_domain : forall args out,
